@@ -1,5 +1,6 @@
 import PC.Model.RevDeps
 import PC.Proofs.SupArms
+import PC.Proofs.SupDw
 import PC.Spec.SupSpec
 /-! C12 — ordered shutdown: the reverse-dependency map (pure part). -/
 namespace PC.Props.C12
@@ -143,10 +144,41 @@ theorem revDepsOf_spec (s : Sys) (n : Name) (j : IId) :
 /-- ... and signals `i` only when every one of them has finished waiting, i.e. when each of those
     dependents is done. -/
 theorem stopper_waits_for_dependents (s : Sys) (u : Tid) (i : IId) (h : (s.thr u).pc = .depWg i) :
-    enabledThr s u = true ↔ s.depWg.getD (s.nameOf i) 0 = 0 := by simp [enabledThr, h]
+    enabledThr s u = true ↔ s.wgOf i = 0 := by simp [enabledThr, h]
 
 theorem depwaiter_waits_for_done (s : Sys) (u : Tid) (j : IId) (h : (s.thr u).pc = .waitDoneThen j) :
     enabledThr s u = true ↔ (s.inst j).done = true := by simp [enabledThr, h]
+
+/-- **Every execution, every schedule**: whenever the stopper of `i` is able to pass its wait (and go
+    on to signal `i`), every `depwaiter` it created has finished and the dependent it watched is done. -/
+theorem stopper_passes_only_after_dependents (gr : Gran) (o : Bool) (cfgs : List Cfg) {s : Sys}
+    (hr : Reach (init gr o cfgs) s) (u : Tid) (i : IId)
+    (hpc : (s.thr u).pc = .depWg i) (hen : enabledThr s u = true) :
+    ∀ w j, (s.thr w).kind = .depwaiter i j → (s.thr w).pc = .finished ∧ (s.inst j).done = true :=
+  pass_after_dependents (reach_dwInv gr o cfgs hr) u i hpc hen
+
+/-- the wait group of a stopper never undercounts its unfinished `depwaiter`s (all reachable states) -/
+theorem waitgroup_covers_open_depwaiters (gr : Gran) (o : Bool) (cfgs : List Cfg) {s : Sys}
+    (hr : Reach (init gr o cfgs) s) (i : IId) : openDw s i ≤ s.wgOf i :=
+  (reach_dwInv gr o cfgs hr).cnt i
+
+/-- **Ordered shutdown, end to end.** Take any reachable state in which the stopper of instance `i`
+    is about to begin, let it begin, and let the system run on in any way whatsoever (any schedule,
+    any external events). Whenever that stopper is then able to leave its wait — the only way to the
+    signal of `i` — every dependent of `i` that was registered as running when it began is done. -/
+theorem ordered_shutdown_waits_for_dependents (gr : Gran) (o : Bool) (cfgs : List Cfg) {s0 s2 : Sys}
+    (h0 : Reach (init gr o cfgs) s0) (t : Tid) (i : IId) (hh : Hints)
+    (ht : t < s0.threads.length) (hk : (s0.thr t).kind = .stopper i) (hb : (s0.thr t).pc = .begin)
+    (h12 : Reach (step s0 (.run t) hh) s2) (hpc : (s2.thr t).pc = .depWg i) (hen : enabledThr s2 t = true) :
+    ∀ j ∈ revDepsOf s0 (s0.nameOf i), (s2.inst j).done = true := by
+  intro j hj
+  have h02 : Reach (init gr o cfgs) s2 := Reach.trans (Reach.step (.run t) hh h0) h12
+  have e := step_stopperBegin s0 t hh i ht hk hb
+  have hj' : j ∈ revDepsOf ({ s0 with obs := [] } : Sys) (({ s0 with obs := [] } : Sys).nameOf i) := hj
+  obtain ⟨w, hw1, hw2⟩ := stopperBegin_creates ({ s0 with obs := [] } : Sys) t i j hj'
+  rw [← e] at hw1 hw2
+  obtain ⟨_, hkind⟩ := reach_kind h12 w hw1
+  exact (stopper_passes_only_after_dependents gr o cfgs h02 t i hpc hen w j (hkind.trans hw2)).2
 
 /-- fan-in `x → d`, `y → d`, ordered shutdown: `d` is signalled after both `x` and `y` are done -/
 def fanin : List Cfg := [{}, { deps := [(0, .started)] }, { deps := [(0, .started)] }]
@@ -158,6 +190,17 @@ set_option maxRecDepth 8000 in
 example : ((runTrace (init .coarse true fanin) faninRun).2.filterMap fun o => match o with
       | .stop n _ => some (Sum.inl n) | .done n => some (Sum.inr n) | _ => none)
     = [.inl 1, .inl 2, .inr 1, .inr 2, .inl 0] := by decide
+
+/-- the premises of `ordered_shutdown_waits_for_dependents` are met in the fan-in scenario: after 9
+    choices the stopper of `d` (thread 5, instance 0) is about to begin with both dependents
+    registered; after 20 choices it sits at its wait group and may pass -/
+example :
+    let s0 := (runTrace (init .coarse true fanin) (faninRun.take 9)).1
+    let s2 := (runTrace (init .coarse true fanin) (faninRun.take 20)).1
+    5 < s0.threads.length ∧ (s0.thr 5).kind = .stopper 0 ∧ (s0.thr 5).pc = .begin ∧
+      revDepsOf s0 (s0.nameOf 0) = [1, 2] ∧ (s2.thr 5).pc = .depWg 0 ∧ enabledThr s2 5 = true ∧
+      (s2.inst 1).done = true ∧ (s2.inst 2).done = true := by
+  set_option maxRecDepth 8000 in decide
 
 end Ordered
 
